@@ -64,6 +64,18 @@ def check(run, views, tier):
             run.note("serde feature off under cfg %s: derives absent by construction" % cfg)
             continue
         seen_serde_cfg = True
+        # every message a parser returns must survive the JSON layer: serde_json refuses documents nested deeper than 128 levels, and one level
+        # of an IPP collection that is a 1setOf of collections costs 4 JSON levels (+7 for the envelope). The parser's nesting limit K must keep
+        # 4*K + 7 below that (R-DEPTH gives K from the comparison that guards the push).
+        from .. import guardrules as _gr
+        import os as _os
+        from ..engine import VERIF as _V, load_json as _lj
+        _saved = (run.explanation, list(run.trusted), list(run.not_decided))
+        K = _gr.r_depth(run, F, _lj(_os.path.join(_V, "tables", "panic.json")))
+        run.explanation, run.trusted, run.not_decided = _saved
+        run.ob("R-SERDE", "parser nesting limit keeps serialised messages within serde_json's recursion limit (4*K+7 <= 128)", K is not None and 4 * K + 7 <= 128,
+               "nesting limit K = %s: a parsed message nested that deep serialises to JSON that serde_json::from_str rejects (recursion limit 128)" % K,
+               key="R-SERDE|depth-vs-json-recursion-limit")
         types = closure_types(F)
         run.floor("R-SERDE", len(types), 8, "types in the message closure")
         for ty in types:
